@@ -221,6 +221,8 @@ def check_c02(ix):
                     cls = "batch-result-changed"
                     if _only_error_type_differs(json.loads(first[0][1]), d["v"]):
                         cls = "batch-error-type-changed"
+                    elif _only_started_items_completed(json.loads(first[0][1]), d["v"]):
+                        cls = "batch-started-item-completed-on-replay"
                 out.append(V("C02", cls, f"{pos}: invocation {first[1]['inv']} delivered {str(first[0])[:160]} but invocation "
                              f"{d['inv']} delivered {str(sig)[:160]}", pos=pos, seq=d["s1"]))
                 break
@@ -242,6 +244,35 @@ def _only_error_type_differs(a, b):
         return diff
     except (IndexError, TypeError):
         return False
+
+
+def _only_started_items_completed(a, b):
+    """b differs from a only in items that a reports STARTED and b reports finished (and the reason)."""
+    try:
+        if a[0] != "batch" or b[0] != "batch" or len(a[2]) != len(b[2]):
+            return False
+        diff = False
+        for x, y in zip(a[2], b[2]):
+            if x == y:
+                continue
+            if x[0] == y[0] and x[1] == "STARTED" and y[1] in ("SUCCEEDED", "FAILED"):
+                diff = True
+                continue
+            return False
+        return diff
+    except (IndexError, TypeError):
+        return False
+
+
+def normalise_wfcond_caught(x):
+    """Blank the exception class of ["caught", cls, "check failed", ...] entries (known finding C02/wfcond class)."""
+    if isinstance(x, list):
+        if len(x) >= 3 and x[0] == "caught" and x[2] == "check failed":
+            return ["caught", "*", x[2]] + [normalise_wfcond_caught(y) for y in x[3:]]
+        if len(x) == 2 and x[1] == "check failed" and isinstance(x[0], str):
+            return ["*", x[1]]  # error [type, message] of a batch item
+        return [normalise_wfcond_caught(y) for y in x]
+    return x
 
 
 def final_outcome(w):
@@ -1022,7 +1053,9 @@ def check_c17(ix, cfg):
                 if trace[m]["t"] == e["t"] and trace[m]["i"] == inv:
                     nxt = trace[m]
                     break
-            emitted = bool(nxt is not None and nxt["k"] == "log" and nxt["msg"] == "L:" + pos)
+            if nxt is None:
+                continue  # the invocation was killed inside the log call: nothing to judge
+            emitted = bool(nxt["k"] == "log" and nxt["msg"] == "L:" + pos)
             silent_expected = (not first) and any(s > e["s"] and oid in done for s, oid in begins)
             if silent_expected and emitted:
                 out.append(V("C17", "logged-during-replay", f"invocation {inv}: log call at {pos} precedes an operation already complete in "
@@ -1163,6 +1196,12 @@ def check_c16(ix, cfg):
         if e.get("under_done"):
             out.append(V("C16", "record-sent-during-replay", f"{e['type']} {e['action']} for {e.get('name')} sent under completed context "
                          f"{e.get('under_name')}", pos=e.get("name"), seq=e["s"]))
+    # items of an oversized map/parallel must still report what their branches produced
+    for v in check_c09(ix, cfg):
+        if v["cls"] in ("item-without-outcome", "item-wrong-result", "item-wrong-error", "raised-for-valid-input"):
+            v = dict(v)
+            v["prop"] = "C16"
+            out.append(v)
     # handler result
     for hx in ix.kinds["handler-exit"]:
         inv = hx["i"]
